@@ -69,7 +69,7 @@ Definition row_ok (r : N * bool * N * N * N * list N) : bool :=
      | Some k => (ek =? k) && (nk =? k) && (match vks with [k'] => k' =? k | _ => false end) && (len =? model_len d)
      | None => false
      end
-   else (len =? 99999) && (match vks with [] => true | _ => false end)).
+   else (len =? 0) && (match vks with [] => true | _ => false end)).
 
 (* ---- exhaustive table checks, as boolean functions (closed by vm_compute in VocabProofs.v; the witness
         functions below return the offending entry for the replay when a check fails) ---- *)
